@@ -1,4 +1,5 @@
 import Hive.Proofs.ReactiveInst
+import Hive.Proofs.ReactiveVariants
 import Hive.Gen.C13_Skel
 /-!
 # C13 — reactive subscribers see every change exactly once, in order
@@ -222,6 +223,78 @@ theorem C13_set_trace_ok (init : List Nat) {cfg : Cfg (Sh (List Nat) Mut) (Th (s
   by_cases hl : c ∈ cfg.1.listed
   · exact Or.inr (C13_set_fold init h hq hl)
   · exact Or.inl hl
+
+/-! ## The subscription variants: `OnUpdateOnce`, `WithValue` / `WithNonEmptyValue`, `OnUpdateWithContext`
+
+Each variant is a sequential machine over the note stream of one inner `OnUpdate` subscription
+(`Hive/Spec/ReactiveVariants.lean`); sequential because callbacks of one subscription never overlap
+(`C13_callbacks_exclusive`), and the stream is what `C13_exactly_once_in_order` says.  The theorems
+hold for every stream, every condition and every callback body. -/
+section Variants
+
+/-- `OnUpdateOnce`: the callback runs at most once … -/
+theorem C13_once_at_most_one {N : Type} (cond : N → Bool) (fired : Bool) (stream : List N) :
+    (onceRun cond fired stream).2.length ≤ 1 :=
+  onceRun_length cond fired stream
+
+/-- … namely for the first note of the stream that satisfies the condition (the initial note
+`(zero, current)` of a non-zero variable counts), with exactly that note … -/
+theorem C13_once_first_match {N : Type} (cond : N → Bool) (stream : List N) :
+    (onceRun cond false stream).2 = (stream.find? cond).toList :=
+  onceRun_calls cond stream
+
+/-- … and never again, however the stream continues (concurrent writers included). -/
+theorem C13_once_never_again {N : Type} (cond : N → Bool) (s1 s2 : List N)
+    (h : (s1.find? cond).isSome = true) : (onceRun cond false (s1 ++ s2)).2 = (onceRun cond false s1).2 := by
+  rw [onceRun_append, onceRun_state, h, onceRun_fired]; simp
+
+/-- In the protocol: what an `OnUpdateOnce` built on subscription `c` calls back with is the first
+matching note of "initial note, then the changes since registration". -/
+theorem C13_once_in_protocol {V : Type} [DecidableEq V] (zero init : V) (cond : V × V → Bool)
+    {cfg : Cfg (Sh V (V × V)) (Th (varObj V zero init).WOp (V × V))} (h : Reachable (varObj V zero init) cfg) (c : Nat) :
+    (onceRun cond false (notes (cfg.1.cbs c).evs)).2 =
+      ((iniPart (cfg.1.cbs c) ++ ((cfg.1.cbs c).since.take (cfg.1.cbs c).d).map (·.note)).find? cond).toList := by
+  rw [onceRun_calls, log_shape _ h.inv c]
+
+/-- `WithValue`: setups and teardowns strictly alternate, each teardown is the one returned by the
+setup right before it (so it runs exactly once, before the next setup). -/
+theorem C13_withvalue_alternates {V : Type} [DecidableEq V] (cond : V → Bool) (vals : List V) :
+    wvAlternates (wvRun cond none vals).2 = true := by
+  simp [wvAlternates, wvRun_scan]
+
+/-- … and after the final teardown (the function `WithValue` returns) nothing is left set up. -/
+theorem C13_withvalue_closed_after_teardown {V : Type} [DecidableEq V] (cond : V → Bool) (vals : List V) :
+    wvClosed ((wvRun cond none vals).2 ++ wvUnsub (wvRun cond none vals).1) = true := by
+  simp [wvClosed, List.foldl_append, wvRun_scan, wvUnsub_scan]
+
+/-- `setup` is called for the value at subscription time and each later value that satisfies the
+condition — each once, in order. -/
+theorem C13_withvalue_setups {V : Type} [DecidableEq V] (cond : V → Bool) (vals : List V) :
+    wvSetups (wvRun cond none vals).2 = vals.filter cond :=
+  wvRun_setups cond none vals
+
+/-- `OnUpdateWithContext`: when a callback starts, every `withinContext` subscription of the previous
+callback has been torn down (once, in registration order); the unsubscribe function tears down the
+last ones; the user callback sees exactly the notes of the stream. -/
+theorem C13_context_torn_down {N : Type} (body : Nat → N → List Bool) (stream : List N) :
+    ctxOk (ctxRun body {} stream).2 = true ∧
+    ctxClosed ((ctxRun body {} stream).2 ++ ctxUnsub (ctxRun body {} stream).1) = true ∧
+    ctxCalls (ctxRun body {} stream).2 = stream := by
+  have h := ctxRun_scan body {} stream
+  refine ⟨by simp [ctxOk, h], ?_, ctxRun_calls body {} stream⟩
+  simp [ctxClosed, List.foldl_append, h, ctxUnsub_scan]
+
+/-- concrete runs of the three machines -/
+example : (onceRun (fun n : Nat × Nat => n.2 % 2 == 1) false [(0, 2), (2, 3), (3, 5)]).2 = [(2, 3)] := by decide
+
+example : (wvRun (fun v : Nat => v != 0) none [0, 3, 4, 0, 2]).2
+    = [.setup 3, .teardown 3, .setup 4, .teardown 4, .setup 2] := by decide
+
+example : (ctxRun (fun _ (n : Nat × Nat) => List.replicate (n.2 % 3) true) {} [(0, 2), (2, 4), (4, 3)]).2
+    = [.call (0, 2), .sub (0, 0), .sub (0, 1), .down (0, 0), .down (0, 1), .call (2, 4), .sub (1, 0), .down (1, 0),
+       .call (4, 3)] := by decide
+
+end Variants
 
 /-! ## Non-vacuity: a concrete schedule, replayed on the model -/
 
